@@ -262,6 +262,8 @@ func (v *Validator) GetDelegationFrom(d common.Address) *DelegationFrom {
 	return nil
 }
 
+// UpdateDelegationFrom never edits the Delegations slice it finds: PartialCopy shares that slice with
+// the record this one was copied from, which the journal keeps as the pre-image of the update.
 func (v *Validator) UpdateDelegationFrom(d *DelegationFrom) (flag params.CurdFlag) {
 	empty := d.Empty()
 	i := v.Delegations.Search(d.Delegator)
@@ -272,23 +274,27 @@ func (v *Validator) UpdateDelegationFrom(d *DelegationFrom) (flag params.CurdFla
 			return params.Noop
 		}
 		//add new
-		v.Delegations = append(v.Delegations, d)
-		if i < oldLen {
-			copy(v.Delegations[i+1:], v.Delegations[i:oldLen])
-			v.Delegations[i] = d
-		}
+		dlgs := make(DelegationFroms, oldLen+1)
+		copy(dlgs, v.Delegations[:i])
+		dlgs[i] = d
+		copy(dlgs[i+1:], v.Delegations[i:])
+		v.Delegations = dlgs
 		return params.Create
 	} else {
 		// already exist
 		if empty {
 			// delete
-			copy(v.Delegations[i:oldLen-1], v.Delegations[i+1:])
-			v.Delegations[oldLen-1] = nil
-			v.Delegations = v.Delegations[:oldLen-1]
+			dlgs := make(DelegationFroms, oldLen-1)
+			copy(dlgs, v.Delegations[:i])
+			copy(dlgs[i:], v.Delegations[i+1:])
+			v.Delegations = dlgs
 			return params.Delete
 		}
-		//update directly
-		v.Delegations[i] = d
+		//update
+		dlgs := make(DelegationFroms, oldLen)
+		copy(dlgs, v.Delegations)
+		dlgs[i] = d
+		v.Delegations = dlgs
 		return params.Update
 	}
 }
